@@ -27,6 +27,7 @@ import (
 
 	"verifharness/inproc"
 	mw "verifharness/mqttwire"
+	"verifharness/resp"
 )
 
 // Sub is one topic of a SUBSCRIBE step.
@@ -196,6 +197,7 @@ type Scenario struct {
 		MaxPkt      int    `json:"srvmaxpkt"`
 		MsgExpiry   int    `json:"msgexpiry"`  // seconds, 0 = off
 		SessExpiry  int    `json:"sessexpiry"` // seconds
+		Persist     string `json:"persist"`    // "" / "memory" / "redis" (the in-process RESP server stands in for redis)
 	} `json:"cfg"`
 	Steps   []Step `json:"steps"`
 	Slow    bool   `json:"slow"`
@@ -431,6 +433,16 @@ func Execute(sc *Scenario, extra ...server.Options) (*Run, []inproc.Event) {
 		}})}
 	}
 	r.gated, r.parked = map[string]bool{}, map[string]*park{}
+	if sc.Cfg.Persist == "redis" {
+		fake, ferr := resp.NewServer()
+		if ferr != nil {
+			r.Fatal = "resp server: " + ferr.Error()
+			return r, r.Rec.Events()
+		}
+		defer fake.Close()
+		cfg.Persistence.Type = config.PersistenceTypeRedis
+		cfg.Persistence.Redis.Addr = fake.Addr()
+	}
 	b, err := inproc.Start(inproc.Options{Cfg: cfg, Rec: r.Rec, Server: extra, Gate: r.gate})
 	if err != nil {
 		r.Fatal = "broker start: " + err.Error()
